@@ -213,33 +213,32 @@ def cli_validate_case(ch, work):
     version = ch.choice([None, 7.6, 8.0, 8.2, 6.0])
     args = ["validate"] + files + ([] if version is None else ["--version", str(version)])
     # expectation from the API
-    exp_lines = []
+    exp_msgs = []   # (file name, message) in order: each needs a stdout line of its own
     problems = 0
-    ok = 0
     v = 8.2 if version is None else version
     for fn in files:
         try:
             d = mappyfile.open(os.path.join(work, fn), include_position=True)
         except Exception:
-            exp_lines.append(f"{fn} failed to parse successfully")
             problems += 1
             continue
-        msgs = mappyfile.validate(d, v)
-        if msgs:
-            for m in msgs:
-                exp_lines.append("{fn} (Line: {line} Column: {column}) {message} - {error}".format(fn=fn, **m))
-                problems += 1
-        else:
-            exp_lines.append(f"{fn} validated successfully")
-            ok += 1
-    exp_lines.append(f"{len(files)} file(s) validated ({ok} successfully)")
+        for m in mappyfile.validate(d, v):
+            exp_msgs.append((fn, m))
+            problems += 1
     code, out, err = run_cli(args, work)
     case = {"cli": args, "kinds": kinds, "problems": problems}
     res = []
     got_lines = [l for l in out.replace("\r\n", "\n").split("\n") if l != ""]
-    if got_lines != exp_lines:
-        k = next((i for i, (a, b) in enumerate(zip(got_lines, exp_lines)) if a != b), min(len(got_lines), len(exp_lines)))
-        res.append(Discrepancy("cli_validate:stdout", f"stdout line {k}: {got_lines[k:k + 1]} expected {exp_lines[k:k + 1]} ({len(got_lines)} vs {len(exp_lines)} lines)", case))
+    # one line per validation message: it names the file, the keyword / object and carries the schema error text
+    free = list(got_lines)
+    for fn, m in exp_msgs:
+        hit = next((l for l in free if fn in l and m["error"] in l and m["message"].split()[-1] in l), None)
+        if hit is None:
+            res.append(Discrepancy("cli_validate:stdout", f"no stdout line for the message {m['message']!r} / {m['error']!r:.80} of {fn} ({len(got_lines)} lines, {len(exp_msgs)} messages)", case))
+            break
+        free.remove(hit)
+    if not res and any(m["error"] in l for l in free for _, m in exp_msgs[:50]):
+        res.append(Discrepancy("cli_validate:stdout_duplicate", "a validation message is printed on more than one line", case))
     if problems == 0 and code != 0:
         res.append(Discrepancy("cli_validate:exit_nonzero_for_valid", f"exit status {code} although every file parsed and validated", case))
     if problems > 0 and code == 0:
